@@ -2,13 +2,19 @@
 (* Behaviour generator for Fractal.tla: the specification itself is simulated (so only enabled steps are taken and
    task channels are never overfilled) and the steps are recorded in hist. *)
 EXTENDS Fractal, Json
-CONSTANT GenLen
+CONSTANTS GenLen, MaxOutages      \* MaxOutages: how many link outages a behaviour may contain (each costs the replay up to 30 s)
 VARIABLE hist
 GRHome == [r \in Relays |-> IF r = "r3" THEN "r1" ELSE "S"]
 GHome == [c \in Leaves |-> IF c \in {"c1", "c2", "l1"} THEN "S" ELSE IF c \in {"c3", "c4"} THEN "r1" ELSE IF c = "c5" THEN "r2" ELSE "r3"]
 RS(X) == RandomElement(IF Len(hist) >= 0 THEN X ELSE {})
 Log(r, x) == hist' = Append(hist, r) /\ R' = x
 GInit == Init /\ hist = <<>>
+\* outage behaviours start with a tree that has something to lose: relay r1 with r3 behind it, a scripted collector at each and the
+\* LocalCollector l2 behind r3 (the prefix is replayed like every other step)
+OutPrefix == <<[a |-> "Connect", r |-> "r1"], [a |-> "Connect", r |-> "r3"], [a |-> "Subscribe", c |-> "c3"],
+               [a |-> "Subscribe", c |-> "c6"], [a |-> "Subscribe", c |-> "l2"], [a |-> "Subscribe", c |-> "c1"]>>
+GInitOut == /\ hist = OutPrefix
+            /\ R = Subscribe(Subscribe(Subscribe(Subscribe(Connect(Connect(InitR, "r1"), "r3"), "c3"), "c6"), "l2"), "c1")
 AddedT == {t \in TaskIds : R.tasks[t] # NoTask}
 Fresh == {t \in TaskIds : R.tasks[t] = NoTask}
 Pending == {t \in AddedT : Unread(R, t) > 0}
@@ -17,6 +23,7 @@ Reachable == {c \in Leaves \ Auto : CanReport(R, c)}
 Bursts == {<<a>> : a \in Payloads} \cup {<<a, b>> : a \in Payloads, b \in Payloads} \cup {<<a, b, c>> : a \in Payloads, b \in Payloads, c \in Payloads}
 RECURSIVE ReportAll(_, _, _, _)
 ReportAll(x, c, t, ps) == IF ps = <<>> THEN x ELSE ReportAll(Report(x, c, t, Head(ps)), c, t, Tail(ps))
+NOutages == Cardinality({i \in DOMAIN hist : hist[i].a = "Outage"})
 Room(t) == IF Accepts(R, t) THEN QCap - Unread(R, t) ELSE 3
 GNext ==
   \* a LocalCollector (Auto leaf) subscribes once per life; scripted collectors may be subscribed again
@@ -24,7 +31,10 @@ GNext ==
   \/ \E c \in {RS(Leaves)} : CanSubscribe(R, c) /\ Log([a |-> "Unsubscribe", c |-> c], Unsubscribe(R, c))
   \/ \E i \in 1..2 : \E r \in {RS(Relays)} : CanConnect(R, r) /\ Log([a |-> "Connect", r |-> r], Connect(R, r))
   \* the relay stops, or (hard) the TCP connection is cut in the middle first
-  \/ \E r \in {RS(Relays)} : R.conn[r] /\ Log([a |-> "Disconnect", r |-> r, hard |-> RS(BOOLEAN)], Disconnect(R, r))
+  \/ \E r \in {RS(Relays)} : R.alive[r] /\ Log([a |-> "Disconnect", r |-> r, hard |-> RS(BOOLEAN)], Disconnect(R, r))
+  \* M6: a link breaks while the relay stays up; later the relay has dialled again
+  \/ \E i \in 1..2 : NOutages < MaxOutages /\ \E r \in {RS(Relays)} : CanOutage(R, r) /\ Log([a |-> "Outage", r |-> r], Outage(R, r))
+  \/ \E i \in 1..3 : \E r \in {RS(Relays)} : CanRecover(R, r) /\ Log([a |-> "Recover", r |-> r], Recover(R, r))
   \/ \E i \in 1..2 : Fresh # {} /\ \E t \in {RS(Fresh)} : Log([a |-> "AddB", t |-> t], AddBroadcast(R, t))
   \* targeted tasks: half of them at a node that has (or may have) a LocalCollector, which answers on its own
   \/ \E i \in 1..2 : Fresh # {} /\ \E t \in {RS(Fresh)}, tg \in {RS(IF RS(1..2) = 1 THEN {Src(c) : c \in Auto} ELSE Sources)} :
